@@ -435,8 +435,8 @@ fn run_transport(
                         // make sure space is freed up as much as possible.
                         let done = drive_connection(conn, wbuf, msgs);
                         if done {
+                            // The client is counted out when it is removed from `clients` below.
                             clients_to_remove.push(*token);
-                            state.decrement_clients();
                             continue;
                         }
 
@@ -458,7 +458,6 @@ fn run_transport(
                         let done = drive_connection(conn, wbuf, msgs);
                         if done {
                             clients_to_remove.push(*token);
-                            state.decrement_clients();
                         }
                     }
 
